@@ -2,7 +2,7 @@
 # Re-confirms every stored seeded change against the CURRENT checks (detection-power regression):
 # for each /verif/seeded/<name>: scratch worktree + patch + repo suite + demo + the property's own quick check.
 # Prints one line per seed; exit 1 if any confirmed seed is no longer detected.
-cd /verif
+cd "$(dirname "$0")/.."
 bad=0
 for d in seeded/*/; do
   n=$(basename "$d"); p=$(python3 -c "import json;print(json.load(open('$d/meta.json'))['breaks_property'])")
